@@ -786,8 +786,11 @@ class Built(object):
             from playback.tape_recorder import RecordingParameters
             p = prog['params']
             rp = RecordingParameters(sampling_rate=p.get('rate', 1.0), ignore_enforced_sampling=p.get('ignore_forced', False),
-                                     skipped=p.get('skipped', False), copy_data_on_intercepion=p.get('copy', False))
+                                     skipped=p.get('skipped', False), copy_data_on_intercepion=p.get('copy', False) and not p.get('copy_set_later'))
             rec.recording_params(rp)(cls)
+            if p.get('copy') and p.get('copy_set_later'):
+                # one settings object registered for the class, the flag is switched on later through its documented attribute
+                rp.copy_data_on_intercepion = True
         return cls
 
     def _extract(self, target, tag):
